@@ -142,7 +142,13 @@ class UnifiedTypeService:
                 f"Unified type system must use X | None exclusively."
             )
 
-        # Quote forward references BEFORE adding | None so we get: "DataSource" | None not "DataSource | None"
+        # An optional forward reference must be quoted as a whole ("DataSource | None"): the expression
+        # "DataSource" | None is evaluated when the class body runs and fails with
+        # TypeError: unsupported operand type(s) for |: 'str' and 'NoneType'
+        if resolved.is_forward_ref and resolved.is_optional and not python_type.endswith("| None"):
+            return f'"{python_type.strip(chr(34))} | None"'
+
+        # Quote (non-optional) forward references
         if resolved.is_forward_ref and not python_type.startswith('"'):
             logger.debug(
                 f'Quoting forward ref: {python_type} -> "{python_type}" '
